@@ -10,6 +10,7 @@ package main
 // properties share this proof and differ in which obligations they keep.
 
 import (
+	"go/types"
 	"regexp"
 	"strconv"
 	"strings"
@@ -76,8 +77,8 @@ func (c *CheckCtx) evalAssumptions() {
 	c.assumptions["A-FN: a builtin (types.Func.Fn) is a function of its arguments and the world (fnOut), and does not panic; builtins are under their own contracts in C13/C20"] = true
 	c.assumptions["A-TIME: no context expires during the evaluation (the timeout return is the only clock-dependent path and is covered by C07's reasoning, not here)"] = true
 	c.assumptions["A-IMMUT: forms are immutable once built (C02), so the step relation may read a form in any heap of the iteration in which it exists (readsat points)"] = true
-	c.assumptions["let: only the shape errors, the opening of a new scope, the sequential evaluation of the bindings in that scope (loop invariant) and the tail continuation are checked; the relation of the body's outcome to the definition (letStepFull) is written but not checked (solver budget)"] = true
-	c.assumptions["try: only the empty form is checked against the definition (tryStepFull is written but not checked: solver budget)"] = true
+	c.assumptions["let: quick tier checks the shape errors, the opening of a new scope, the sequential evaluation of the bindings in that scope (loop invariant) and the tail continuation; the outcome of the body (letStepThorough) is checked in the thorough tier"] = true
+	c.assumptions["try: quick tier checks the empty form only; the full relation (tryStepThorough with the cut lemmas tryShapeThorough/tryArityThorough) is checked in the thorough tier"] = true
 	c.assumptions["quasiquote: EVAL evaluates quasiquote()'s result in tail position in the same scope; the transform itself is checked under C12 (qqStep/qqRel); the evaluation lemma (transformed form evaluates to the substituted template) is not proved"] = true
 }
 
@@ -118,7 +119,7 @@ func init() {
 		ID: "C03", Level: "other",
 		Technique: "contract-based deductive verification of the transport of thrown objects: throw, lisperror.NewLispError, LispError.ErrorValue against thrownOf; EVAL's re-positioning of builtin errors keeps the thrown object (clause of the step relation); empty try form",
 		DesignRef: "DESIGN.md §4 C03",
-		Explain:   "partial: the object a catch clause would receive is unchanged by throw, by re-positioning and by propagation through EVAL/eval_ast/do/Apply; the try form itself (handler once, finally once) is NOT proved: its relation tryStepFull is written but exceeds the solver budget",
+		Explain:   "the object a catch clause receives is unchanged by throw, by re-positioning and by propagation through EVAL/eval_ast/do/macroexpand/Apply (both tiers); the try form against its definition (body, handler once in a child scope binding the thrown object, finally once in the try's scope, arity errors) in the thorough tier only",
 		Run:       runC03,
 	})
 }
@@ -254,4 +255,68 @@ func runC17(c *CheckCtx) {
 	c.runJobs(jobs, func(o *Obligation) bool { return o.Kind == "post" })
 	c.assumptions["A-SCAN: token rows are text lines (third-party scanner); the scanner is modelled as a state machine whose Pos/TokenText are functions of the number of Scan calls"] = true
 	c.assumptions["not covered: spans of the lists built by read_list (attempted, dropped: the loop-carried cursor facts did not discharge), the form EVAL passes to NewLispError at each error site, positions through library macros written in lisp"] = true
+}
+
+// ---------------------------------------------------------------------------
+// C07: cancellation (safety skeleton only)
+
+func init() {
+	register(&Property{
+		ID: "C07", Level: "other",
+		Technique: "contract-based deductive verification of the safety skeleton: an assertion at the top of EVAL's loop body (past the poll the context is nil or not done, on every iteration and for every form), and obligation ctx/blocking-select-has-done-case on every blocking select of the context-taking builtins (sleep, Future.Deref): one alternative is a receive from the caller's ctx.Done()",
+		DesignRef: "DESIGN.md §4 C07",
+		Explain:   "partial: the time bound itself (returns within a bound independent of the program) is not decidable by contracts: there is no clock and no blocking semantics in the verifier. Proved: no iteration of the evaluation loop proceeds with a context that was done when polled; the blocking builtins wait on the context among their alternatives",
+		Run:       runC07,
+	})
+}
+
+// waitsOnContext: f contains a blocking select one of whose cases receives from Done() of f's
+// context parameter.
+func waitsOnContext(f *ssa.Function) bool {
+	for _, b := range f.Blocks {
+		for _, in := range b.Instrs {
+			sel, ok := in.(*ssa.Select)
+			if !ok || !sel.Blocking {
+				continue
+			}
+			for _, s := range sel.States {
+				if s.Dir != types.RecvOnly {
+					continue
+				}
+				call, ok := s.Chan.(*ssa.Call)
+				if !ok || !call.Call.IsInvoke() || call.Call.Method.Name() != "Done" {
+					continue
+				}
+				if p, ok := call.Call.Value.(*ssa.Parameter); ok && typeStr(p.Type()) == "context.Context" {
+					return true
+				}
+			}
+		}
+	}
+	return false
+}
+
+func runC07(c *CheckCtx) {
+	jobs := c.jobsFor([]string{"lisp.EVAL", "lib/core.sleep", "(*lib/concurrent.Future).Deref"}, func(f *ssa.Function) *Job {
+		j := &Job{Fn: f, PanicMode: "ignore"}
+		if f.Name() != "EVAL" {
+			j.Setup = func(tr *Tr, a *Act, st *State, args []Term) {
+				goal := "false"
+				if waitsOnContext(f) {
+					goal = "true"
+				}
+				loc, _ := a.srcLine(f.Pos())
+				fname := fnName(f)
+				tr.obls = append(tr.obls, &Obligation{Name: fname + "/ctx/blocking-wait-has-done-case#1", Kind: "ctx", Fn: fname, Pos: loc,
+					Src: "the function blocks in a select one of whose cases is a receive from its context's Done()", Guard: "true", Goal: goal})
+			}
+		}
+		return j
+	})
+	c.runJobs(jobs, func(o *Obligation) bool {
+		return o.Kind == "ctx" || (o.Kind == "assert" && strings.Contains(o.Src, "done(ctx)"))
+	})
+	c.assumptions["no clock and no blocking semantics: 'promptly' is not decided; a context is an abstract value with a done predicate, a receive from ctx.Done() succeeds exactly when it is done, a non-blocking select takes that case when it is ready"] = true
+	c.assumptions["that every recursive evaluation receives the caller's context or a child of it is visible at the call sites (ctx is passed through unchanged except in try), not a separate obligation"] = true
+	c.assumptions["futures: that the body of a future runs under a context derived from its creator's is not checked here"] = true
 }
